@@ -222,7 +222,7 @@ Definition cursor_position_formatted (x : grid) (ppos : option (N * N)) (pattrs 
                     else Ok []
                   | None => do mv <- t_move_to i ci; Ok (mv ++ redraw_cell cli pa)
                   end;
-        Ok (pre ++ [TChars (repeatN 10 (prow x - i))])
+        Ok (pre ++ repeatN (TCtl 10) (prow x - i))
       | None =>
         do mv <- move_opt ppos (prow x) lastc;
         let endc := vcell vr (prow x) lastc in
